@@ -70,6 +70,14 @@ def r1_r4(ctx):
                 ok = False
                 continue
             c = x[1][1]
+            if c[0] == "call" and short(c[1]).endswith("Option::filter") and len(c[2]) == 2:
+                # `majority().N.filter(|m| ..)`: a filter cannot change the address, only withhold it
+                src = c[2][0]
+                if src[0] == "field" and src[2] == comp and src[1][0] == "call" and src[1][1] == IV + "majority":
+                    clos_ok = True
+                else:
+                    ok = False
+                continue
             if not (c[0] == "call" and short(c[1]).endswith("Option::and_then")):
                 ok = False
                 continue
@@ -107,6 +115,9 @@ def r1_r4(ctx):
             if se[0] == "discr" and se[1][0] == "call" and se[1][3] == skey:
                 names, _ = g.variant_names(sbi)
                 ok_edges += [tb for v, tb in st.vals if names.get(v) == "Ok"]
+                # `if let Err(e) = result { .. } else { .. }`: the Ok case is the `otherwise` edge
+                if not any(names.get(v) == "Ok" for v, _ in st.vals) and any(names.get(v) == "Err" for v, _ in st.vals) and st.otherwise is not None:
+                    ok_edges.append(st.otherwise)
         ann = []
         for abi, at in b.calls():
             if (at.callee() or "") == SV + "send_event":
@@ -211,10 +222,23 @@ def r3(ctx):
     if res_l is None:
         raise AnchorError("filter_stale_find_most_frequent: local `result` not found")
     win_sites = []
-    for lhs, kind, payload, blk, _l in p.defs.get(res_l, ()):
-        if kind == "rv" and payload.k == "agg" and payload.j.get("variant") == "None":
+    # where a value that may be a winner enters `result`: followed backwards through plain moves (a helper's return place, a temporary)
+    seen_l, work = set(), [res_l]
+    while work:
+        cur = work.pop()
+        if cur in seen_l:
             continue
-        win_sites.append(blk)
+        seen_l.add(cur)
+        for lhs, kind, payload, blk, _l in p.defs.get(cur, ()):
+            if blk not in b.live_blocks():
+                continue
+            if kind == "rv" and payload.k == "agg" and payload.j.get("variant") == "None":
+                continue
+            if kind == "rv" and payload.k == "use" and payload.ops[0].place is not None and payload.ops[0].place.is_local() and \
+                    not b.local_name(payload.ops[0].place.local) and payload.ops[0].place.local not in range(1, b.arg_count + 1):
+                work.append(payload.ops[0].place.local)
+                continue
+            win_sites.append(blk)
     if not win_sites:
         raise AnchorError("filter_stale_find_most_frequent: no site hands out a winner")
     for name, edges, msg in (("threshold", enough, "with fewer than minimum_threshold votes"), ("margin", clear, "although a rival is within the clear-majority margin")):
